@@ -25,6 +25,11 @@
 //	var-decl      x := e                    →  var x = e
 //	rename-local  a local variable renamed consistently (fresh name)
 //	move-func     a function declaration moved to the end of its file
+//	range-int     for i := 0; i < N; i++ {…}  →  for i := range N {…} (N a variable, field path or len of one that the body
+//	              does not assign or append to; i not assigned in the body)
+//	clamp-builtin if x > y { x = y }  →  x = min(x, y);  if x < y { x = y }  →  x = max(x, y)   (pure x, y; ordered non-float or float: min/max
+//	              differ from the if form only for NaN, so float operands are left alone)
+//	iface-any     interface{}  →  any
 //	named-const   a numeric or string literal in a function body  →  a package-level untyped constant with that value
 //	rename-func   an unexported function or method renamed consistently (not referenced by tests, not an interface method)
 //	rename-field  an unexported struct field renamed consistently (not referenced by tests)
@@ -41,6 +46,7 @@ import (
 	"go/types"
 	"os"
 	"path/filepath"
+	"regexp"
 	"sort"
 	"strings"
 
@@ -135,6 +141,7 @@ func main() {
 			if err != nil {
 				src = buf.Bytes()
 			}
+			src = anyMark.ReplaceAll(src, []byte("any"))
 			os.WriteFile(filepath.Join(*out, filepath.Base(f)), src, 0o644)
 		}
 		fmt.Printf("combo %s\n", strings.Join(descs, " "))
@@ -161,6 +168,7 @@ func main() {
 		if err != nil {
 			src = buf.Bytes()
 		}
+		src = anyMark.ReplaceAll(src, []byte("any"))
 		if err := os.WriteFile(filepath.Join(*out, filepath.Base(f)), src, 0o644); err != nil {
 			fmt.Fprintln(os.Stderr, err)
 			os.Exit(2)
@@ -259,6 +267,25 @@ func sitesOf(file string, af *ast.File) []site {
 						x.Cond = ast.NewIdent(name)
 						replace(i, []ast.Stmt{as, x})
 					})
+				}
+				// clamp-builtin
+				if x.Init == nil && x.Else == nil && len(x.Body.List) == 1 {
+					if be, ok := x.Cond.(*ast.BinaryExpr); ok && (be.Op == token.GTR || be.Op == token.LSS) && pure(be.X) && pure(be.Y) {
+						if as, ok := x.Body.List[0].(*ast.AssignStmt); ok && as.Tok == token.ASSIGN && len(as.Lhs) == 1 && len(as.Rhs) == 1 &&
+							exprShort(as.Lhs[0]) == exprShort(be.X) && exprShort(as.Rhs[0]) == exprShort(be.Y) {
+							if t := info.TypeOf(be.X); t != nil {
+								if b, isB := t.Underlying().(*types.Basic); isB && b.Info()&types.IsInteger != 0 && types.Identical(t, info.TypeOf(be.Y)) {
+									fn := "min"
+									if be.Op == token.LSS {
+										fn = "max"
+									}
+									add(x, "clamp-builtin", exprShort(x.Cond), func() {
+										replace(i, []ast.Stmt{&ast.AssignStmt{Lhs: []ast.Expr{be.X}, Tok: token.ASSIGN, Rhs: []ast.Expr{&ast.CallExpr{Fun: ast.NewIdent(fn), Args: []ast.Expr{be.X, be.Y}}}}})
+									})
+								}
+							}
+						}
+					}
 				}
 				// else-wrap: if C {…; return}; rest  →  if C {…; return} else { rest }
 				if x.Else == nil && len(x.Body.List) > 0 && i+1 < len(list) {
@@ -433,6 +460,25 @@ func sitesOf(file string, af *ast.File) []site {
 			}
 		case *ast.BlockStmt:
 			visitList(func() []ast.Stmt { return x.List }, func(l []ast.Stmt) { x.List = l }, loopBody[x])
+			// range-int (needs the containing list to replace the statement)
+			for i, st := range x.List {
+				fs, ok := st.(*ast.ForStmt)
+				if !ok {
+					continue
+				}
+				if rs := rangeIntOf(fs); rs != nil {
+					i, blk, fs := i, x, fs
+					_ = i
+					add(fs, "range-int", exprShort(fs.Cond), func() {
+						for j, y := range blk.List {
+							if y == ast.Stmt(fs) {
+								blk.List[j] = rs
+							}
+						}
+					})
+				}
+			}
+
 		case *ast.CaseClause:
 			visitList(func() []ast.Stmt { return x.Body }, func(l []ast.Stmt) { x.Body = l }, false)
 		case *ast.CommClause:
@@ -467,6 +513,13 @@ func sitesOf(file string, af *ast.File) []site {
 						tok = token.SUB_ASSIGN
 					}
 					x.Post = &ast.AssignStmt{Lhs: []ast.Expr{post.X}, Tok: tok, Rhs: []ast.Expr{&ast.BasicLit{Kind: token.INT, Value: "1"}}}
+				})
+			}
+		case *ast.InterfaceType:
+			if x.Methods == nil || len(x.Methods.List) == 0 {
+				add(x, "iface-any", "interface{}", func() {
+					// the printer shows an empty method list as interface{}: mark it for the textual pass below
+					x.Methods = &ast.FieldList{List: []*ast.Field{{Type: ast.NewIdent("anyEqMARK")}}}
 				})
 			}
 		case *ast.BinaryExpr:
@@ -616,6 +669,8 @@ func exprShort(e ast.Expr) string {
 	}
 	return s
 }
+
+var anyMark = regexp.MustCompile(`interface\s*\{\s*anyEqMARK\s*\}`)
 
 var opAssign = map[token.Token]token.Token{token.ADD_ASSIGN: token.ADD, token.SUB_ASSIGN: token.SUB, token.MUL_ASSIGN: token.MUL, token.QUO_ASSIGN: token.QUO}
 
@@ -1086,4 +1141,88 @@ func replaceChild(parent ast.Node, old ast.Expr, repl ast.Expr, done *bool) {
 	case *ast.SendStmt:
 		sw(&p.Value)
 	}
+}
+
+// rangeIntOf: the range-over-int form of a counted loop, or nil.
+func rangeIntOf(fs *ast.ForStmt) *ast.RangeStmt {
+	as, ok := fs.Init.(*ast.AssignStmt)
+	if !ok || as.Tok != token.DEFINE || len(as.Lhs) != 1 || len(as.Rhs) != 1 {
+		return nil
+	}
+	iv, ok := as.Lhs[0].(*ast.Ident)
+	if !ok {
+		return nil
+	}
+	iobj := info.Defs[iv]
+	// start: 0 or T(0)
+	start := as.Rhs[0]
+	if c, isCall := start.(*ast.CallExpr); isCall && len(c.Args) == 1 {
+		if tv, ok := info.Types[c.Fun]; ok && tv.IsType() {
+			start = c.Args[0]
+		}
+	}
+	if bl, ok := start.(*ast.BasicLit); !ok || bl.Value != "0" {
+		return nil
+	}
+	be, ok := fs.Cond.(*ast.BinaryExpr)
+	if !ok || be.Op != token.LSS {
+		return nil
+	}
+	if id, ok := be.X.(*ast.Ident); !ok || info.Uses[id] != iobj {
+		return nil
+	}
+	inc, ok := fs.Post.(*ast.IncDecStmt)
+	if !ok || inc.Tok != token.INC {
+		return nil
+	}
+	if id, ok := inc.X.(*ast.Ident); !ok || info.Uses[id] != iobj {
+		return nil
+	}
+	// the bound: same type as the counter, invariant
+	bound := be.Y
+	ti, tb := info.TypeOf(iv), info.TypeOf(bound)
+	if ti == nil || tb == nil || !types.Identical(ti, tb) {
+		return nil
+	}
+	inner := bound
+	if c, isCall := inner.(*ast.CallExpr); isCall && len(c.Args) == 1 {
+		if id, ok := c.Fun.(*ast.Ident); ok && id.Name == "len" {
+			inner = c.Args[0]
+		} else {
+			return nil
+		}
+	}
+	if !pure(inner) {
+		return nil
+	}
+	if _, isLit := inner.(*ast.BasicLit); !isLit {
+		if writes(fs.Body, inner) {
+			return nil
+		}
+	}
+	// the counter is not assigned in the body
+	assigned := false
+	ast.Inspect(fs.Body, func(n ast.Node) bool {
+		switch y := n.(type) {
+		case *ast.AssignStmt:
+			for _, l := range y.Lhs {
+				if id, ok := l.(*ast.Ident); ok && info.Uses[id] == iobj {
+					assigned = true
+				}
+			}
+		case *ast.IncDecStmt:
+			if id, ok := y.X.(*ast.Ident); ok && info.Uses[id] == iobj {
+				assigned = true
+			}
+		case *ast.UnaryExpr:
+			if id, ok := y.X.(*ast.Ident); ok && y.Op == token.AND && info.Uses[id] == iobj {
+				assigned = true
+			}
+		}
+		return true
+	})
+	if assigned {
+		return nil
+	}
+	return &ast.RangeStmt{Key: ast.NewIdent(iv.Name), Tok: token.DEFINE, X: bound, Body: fs.Body}
 }
